@@ -22,14 +22,14 @@ VARIABLES obj, hist
 (* ----- argument alphabets: valid, boundary and invalid ------------------- *)
 UKeys   == { B("ca"), B("hc"), B("1a"), B("CA"), B("c1"), B("c"), B("cal"), B("") }
 UVals   == { <<>>, <<B("buddhist")>>, <<B("true")>>, <<B("islamic"), B("civil")>>, <<B("Gregory")>>,
-             <<B("ab")>>, <<B("toolongxx")>>, <<B("a*c")>>, <<B("islamic"), B("true")>> }
+             <<B("ab")>>, <<B("toolongxx")>>, <<B("a*c")>>, <<B("islamic"), B("true")>>, <<B("gregory"), B("x")>> }
 Attrs   == { B("foo"), B("bar"), B("FOO"), B("abcdefgh"), B("ab"), B("abcdefghi"), B("fo-o"), B(""), B("zzz") }
 TLangs  == { B("en"), B("en-US"), B("EN-latn-us-valencia"), B("und"), B("x"), B("en-"), B(""), B("de-1996-bavarian"),
              B("abcdefgh-Latn"), B("abcde-419") }
 TKeys   == { B("h0"), B("k0"), B("H0"), B("0h"), B("h"), B("hh"), B("") }
 TVals   == { <<>>, <<B("hybrid")>>, <<B("true")>>, <<B("googlevk"), B("extended")>>, <<B("ab")>>,
-             <<B("Windows")>>, <<B("a"), B("b")>> }
-Tags    == { B("a"), B("b"), B("foo"), B("FOO"), B("abcdefgh"), B("abcdefghi"), B(""), B("a*"), B("1") }
+             <<B("Windows")>>, <<B("a"), B("b")>>, <<B("hybrid"), B("!")>> }
+Tags    == { B("a"), B("b"), B("c"), B("d"), B("D"), B("abcdefgh"), B("abcdefghi"), B(""), B("a*") }
 Langs   == { B("en"), B("und"), B("EN"), B("abcd"), B("e"), B("abcdefgh"), B("sr") }
 Scripts == { B("Latn"), B("latn"), B("Lat"), B("Cyrl"), B("1234") }
 Regions == { B("US"), B("us"), B("419"), B("4190"), B("u1") }
@@ -71,8 +71,30 @@ OpsAll ==
            Op0("clear_tags"), Op0("clear_language"), Op0("clear_script"), Op0("clear_region"),
            Op0("clear_variants"), Op0("reparse") }
 
-Ops == CASE Part = "U" -> OpsU [] Part = "T" -> OpsT [] Part = "X" -> OpsX
-         [] Part = "Id" -> OpsId [] Part = "All" -> OpsAll
+(* leaner alphabets for history mode, where the number of cases is |Ops|^K: *)
+(* still one valid, one boundary and one invalid (or valid-then-invalid)     *)
+(* argument per position                                                     *)
+HOpsU == { OpKV("set_keyword", k, v) : k \in {B("ca"), B("HC"), B("c1")}, v \in {<<>>, <<B("buddhist")>>, <<B("gregory"), B("x")>>} }
+         \cup { OpK("remove_keyword", k) : k \in {B("ca"), B("hc")} } \cup { OpK("keyword", k) : k \in {B("ca")} }
+         \cup { OpS("set_attribute", a) : a \in {B("foo"), B("bar"), B("zzz"), B("ab")} }
+         \cup { OpS("remove_attribute", a) : a \in {B("foo"), B("bar"), B("zzz")} }
+         \cup { Op0("clear_keywords"), Op0("clear_attributes") }
+HOpsT == { OpS("set_tlang", l) : l \in {B("en"), B("abcdefgh-Latn"), B("x")} }
+         \cup { OpKV("set_tfield", k, v) : k \in {B("h0"), B("k0"), B("hh")}, v \in {<<>>, <<B("hybrid")>>, <<B("hybrid"), B("!")>>} }
+         \cup { OpK("remove_tfield", k) : k \in {B("h0"), B("k0")} } \cup { OpK("tfield", k) : k \in {B("k0")} }
+         \cup { Op0("clear_tlang"), Op0("clear_tfields") }
+HOpsX == { OpS("add_tag", t) : t \in {B("a"), B("b"), B("c"), B("D"), B("")} }
+         \cup { OpS("remove_tag", t) : t \in {B("a"), B("b"), B("c"), B("d")} }
+         \cup { OpS("has_tag", t) : t \in {B("c")} } \cup { Op0("clear_tags") }
+HOpsId == { OpS("set_language", l) : l \in {B("de"), B("UND"), B("abcd")} } \cup { OpS("set_script", x) : x \in {B("cyrl"), B("Lat")} }
+          \cup { OpS("set_region", r) : r \in {B("419"), B("u1")} }
+          \cup { OpV("set_variants", v) : v \in {<<>>, <<B("1996"), B("1996"), B("valencia")>>, <<B("valencia"), B("1ABC"), B("valencia")>>, <<B("abcd")>>} }
+          \cup { OpS("has_variant", v) : v \in {B("1996")} }
+          \cup { Op0("clear_language"), Op0("clear_script"), Op0("clear_region"), Op0("clear_variants") }
+
+Ops == IF Mode = "hist"
+       THEN CASE Part = "U" -> HOpsU [] Part = "T" -> HOpsT [] Part = "X" -> HOpsX [] Part = "Id" -> HOpsId [] Part = "All" -> OpsAll
+       ELSE CASE Part = "U" -> OpsU [] Part = "T" -> OpsT [] Part = "X" -> OpsX [] Part = "Id" -> OpsId [] Part = "All" -> OpsAll
 
 (* bound the private-tag bag (it is the only unbounded component)           *)
 Bounded(v) == Len(v.priv) <= 3
@@ -80,7 +102,7 @@ Bounded(v) == Len(v.priv) <= 3
 (* start values: default(), or a parsed locale that already carries every   *)
 (* kind of extension                                                        *)
 StartText == IF Start = "default" THEN <<>>
-             ELSE B("en-Latn-US-valencia-t-de-h0-hybrid-u-foo-ca-buddhist-x-a-b")
+             ELSE B("en-Latn-US-valencia-t-de-h0-hybrid-u-foo-ca-buddhist-x-a-d")
 StartVal == IF Start = "default" THEN LocDefault ELSE ParseLoc(StartText).val
 
 Init == obj = StartVal /\ hist = <<>>
